@@ -217,3 +217,31 @@ func H_C05_fp() {
 	vrt.Assert("bit-precise: Var of magnitudes <= 1e6 is finite", v <= 1e300)
 	vrt.Reach("done")
 }
+
+// H_C05_fpcond: bit-precise (binary64) accuracy of the variance on ill-conditioned data: n elements in
+// [1e8, 1e8+1] (large mean, spread <= 1).  The reference is the two-pass definition evaluated in
+// binary64 by the harness; the assertion allows 1e-6 relative + 1e-6 absolute error, which every
+// backward-stable formulation (two-pass, Welford, pairwise sums) meets by 6+ orders of magnitude, and
+// which the one-pass "sum x^2 - (sum x)^2/n" formula misses by 6 (error ~ eps * 1e16 ~ 1).
+func H_C05_fpcond() {
+	n := vrt.Param("n")
+	x, xe := mk("x", []int{n}, false)
+	for k := range xe {
+		vrt.Assume(vrt.And(xe[k] >= 1e8, xe[k] <= 1e8+1))
+	}
+	s := 0.
+	for k := range xe {
+		s = s + xe[k]
+	}
+	m := s / float64(n)
+	q := 0.
+	for k := range xe {
+		d := xe[k] - m
+		q = q + d*d
+	}
+	ref := q / float64(n-1)
+	tol := 1e-6*ref + 1e-6
+	v := x.Var()
+	vrt.Assert("bit-precise: Var of ill-conditioned data (mean 1e8, spread <= 1) is within 1e-6 rel + 1e-6 abs of the two-pass value", vrt.And(v <= ref+tol, v >= ref-tol))
+	vrt.Reach("done")
+}
